@@ -137,7 +137,8 @@ def c13_scenarios(tier):
         if ids == list(range(1, n + 1)) and n <= 5:
             for kind_ in ("statusreply", "statusreq"):
                 for m_ in ("prepare", "execute", "contribute"):
-                    for to in ids:
+                    # contributions only travel from a lower to a higher id: the lowest id never receives one
+                    for to in (ids[1:] if m_ == "contribute" else ids):
                         for code in (["DeadlineExceeded", "Canceled", "Unavailable"] if tier != "thorough" else ["DeadlineExceeded", "Canceled", "Unavailable", "Internal", "ResourceExhausted"]):
                             k += 1
                             acct = "DW/r%d" % k
